@@ -1,4 +1,257 @@
-"""special engines: timer (C17), concurrency (C18), configuration (C20)"""
+"""special engines: timer (C17), directed scenarios, configuration (C20), concurrency (C18)"""
+import os, random, re, collections, json
+from . import runner
+from .canon import esc, unesc
+
+
+# --------------------------------------------------------------------------- C17 timer
+
+def gen_timer_seqs(seed, n):
+    r = random.Random(seed * 31 + 7)
+    seqs = []
+    for i in range(n):
+        P = r.choice([1, 1, 2, 2, 3, 4])
+        T = r.choice([1, 2, 2, 3, 4, 5])
+        pattern = r.choice(["always", "never", "late", "stops", "token", "unsolicited", "pingcmd"])
+        ops = ["connect 1 127.0.0.1", "line 1 " + esc("NICK a"), "line 1 " + esc("USER u 0 * :r")]
+        t = 0
+        horizon = r.choice([6, 9, 12, 16]) * 1000
+        k_stop = r.choice([1, 2, 3])
+        answered = 0
+        if r.random() < 0.3:
+            d = r.choice([100, 300, 700])
+            ops.append("advance %d" % d)
+            t += d
+        reg = 0
+        while t < horizon:
+            # advance to just after the next ping, then maybe answer
+            nxt = ((t - reg) // (P * 1000) + 1) * P * 1000 + reg
+            delay = r.choice([100, 200, 500, 900]) if pattern != "late" else T * 1000 + r.choice([100, 500])
+            if pattern in ("always", "token", "late", "pingcmd") or (pattern == "stops" and answered < k_stop):
+                d = nxt + delay - t
+                ops.append("advance %d" % d)
+                t += d
+                tok = r.choice(["x", ":LALAL", "12345", ":some thing"]) if pattern == "token" else ":LALAL"
+                ops.append("line 1 " + esc("PONG " + tok))
+                answered += 1
+                if pattern == "pingcmd" and r.random() < 0.5:
+                    ops.append("line 1 " + esc("PING tok%d" % answered))
+            elif pattern == "unsolicited":
+                d = r.choice([300, 600, 1300])
+                ops.append("advance %d" % d)
+                t += d
+                ops.append("line 1 " + esc("PONG early"))
+            else:
+                d = r.choice([500, 1000, 2500, 4000])
+                ops.append("advance %d" % d)
+                t += d
+                if r.random() < 0.2:
+                    ops.append("line 1 " + esc(r.choice(["LUSERS", "PING keep", "JOIN #a", "PRIVMSG a :hi"])))
+        cfg = ["cfg name irc.test", "cfg ping_timeout %d" % P, "cfg pong_timeout %d" % T]
+        seqs.append(("timer-%d-%d-P%d-T%d-%s" % (seed, i, P, T, pattern), cfg, ops, (P, T, pattern)))
+    return seqs
+
+
+def parse_timer_impl(text):
+    """impl transcript -> {seq: [[(conn, ms, kind)] per op]}"""
+    res = collections.OrderedDict()
+    cur = None
+    op = None
+    for line in text.split("\n"):
+        if line.startswith("seq "):
+            cur = []
+            res[line[4:]] = cur
+        elif line.startswith("op "):
+            op = []
+            cur.append(op)
+        elif line.startswith("out "):
+            _, c, at, l = line.split(" ", 3)
+            l = unesc(l)
+            ms = int(at[1:])
+            if re.match(r"^:\S+ PING :LALAL$", l):
+                op.append((int(c), ms, "PING"))
+            elif re.match(r"^:\S+ ERROR :Pong timeout", l):
+                op.append((int(c), ms, "ERROR"))
+            else:
+                m = re.match(r"^:\S+ PONG \S+ :(.*)$", l)
+                if m:
+                    op.append((int(c), ms, "PONG " + m.group(1)))
+        elif line.startswith("ev closed "):
+            pass
+        elif line.startswith("ev panic") or line.startswith("ev readtimeout"):
+            op.append((0, 0, "BROKEN " + line))
+    return res
+
+
+def parse_timer_model(text):
+    res = collections.OrderedDict()
+    cur = None
+    op = None
+    for line in text.split("\n"):
+        if line.startswith("seq "):
+            cur = []
+            res[line[4:]] = cur
+        elif line.startswith("op "):
+            op = []
+            cur.append(op)
+        elif line.startswith("tev "):
+            _, c, at, rest = line.split(" ", 3)
+            op.append((int(c), int(at[1:]), rest))
+    return res
+
+
+def timer_oracle(ops, P, T, events):
+    """independent check of the statement on the implementation trace:
+    a client silent from some PING on must get ERROR no later than T (+0.2 s slack) after the
+    first PING it failed to answer; a client that answered every PING within min(P,T) is never
+    sent ERROR."""
+    t = 0
+    pong_times = []
+    for o in ops:
+        w = o.split(" ")
+        if w[0] == "advance":
+            t += int(w[1])
+        elif w[0] == "line" and unesc(w[2]).upper().startswith("PONG"):
+            pong_times.append(t)
+    end = t
+    pings = [ms for (c, ms, k) in events if k == "PING"]
+    errs = [ms for (c, ms, k) in events if k == "ERROR"]
+    for p in pings:
+        answered = any(p <= q < p + T * 1000 for q in pong_times)
+        later_pong = any(q >= p for q in pong_times)
+        if not later_pong:
+            # silent from this ping on
+            if end >= p + T * 1000 + 200 and not any(e <= p + T * 1000 + 200 for e in errs):
+                return "silent-client-not-dropped"
+            break
+    if errs:
+        e = errs[0]
+        # was every ping before e answered in time?
+        ok_all = all(any(p <= q < min(p + T * 1000, p + P * 1000) for q in pong_times) for p in pings if p < e)
+        if ok_all and pings:
+            return "live-client-dropped"
+    return None
+
+
+def run_timer(tier, seed, log):
+    os.makedirs(runner.WORK, exist_ok=True)
+    n = 60 if tier == "quick" else 1500
+    seqs = gen_timer_seqs(seed, n)
+    path = runner.WORK + "/timer-%d.ops" % seed
+    runner.write_seq_file(path, [(a, b, c) for a, b, c, _ in seqs])
+    ri = runner.sh([runner.HARNESS, "timer", path], timeout=3000)
+    rm = runner.sh([runner.MODEL, "timer", path], timeout=600)
+    if ri.returncode != 0 or rm.returncode != 0:
+        raise runner.BuildError("timer mode failed: %s %s" % (ri.stderr[-800:], rm.stderr[-800:]))
+    A, B = parse_timer_impl(ri.stdout), parse_timer_model(rm.stdout)
+    violations = []
+    n_events = 0
+    combos = set()
+    seen = set()
+    for name, cfg, ops, (P, T, pattern) in seqs:
+        a, b = A.get(name, []), B.get(name, [])
+        combos.add((P, T, pattern))
+        flat = [e for op in a for e in op]
+        n_events += len(flat)
+        verdict = timer_oracle(ops, P, T, flat)
+        if verdict and ("oracle:" + verdict) not in seen:
+            seen.add("oracle:" + verdict)
+            violations.append(("timer:" + verdict, {
+                "what": "keep-alive statement violated on an implementation trace (virtual time)",
+                "verdict": verdict, "ping_timeout": P, "pong_timeout": T, "pattern": pattern,
+                "cfg": cfg, "ops": ops, "ops_readable": runner.render_ops(ops), "impl_events": flat[:40],
+                "model_events": [e for op in b for e in op][:40], "timer": True}))
+        def norm(opsl):
+            # a PING due at the very instant of the timeout is a race in the real system
+            # (timer task vs. waker task); it is dropped from both sides before comparing
+            errs = {(c, ms) for op in opsl for (c, ms, k) in op if k == "ERROR"}
+            return [[e for e in op if not (e[2] == "PING" and (e[0], e[1]) in errs)] for op in opsl]
+        a, b = norm(a), norm(b)
+        if a != b:
+            for k, (x, y) in enumerate(zip(a, b)):
+                if x != y:
+                    sig = "timer:divergence"
+                    if sig not in seen:
+                        seen.add(sig)
+                        violations.append((sig, {
+                            "what": "timer model and implementation differ", "op": k + 1, "impl": x, "model": y,
+                            "ping_timeout": P, "pong_timeout": T, "pattern": pattern, "cfg": cfg, "ops": ops,
+                            "ops_readable": runner.render_ops(ops), "timer": True,
+                            "suffix": "" if verdict else "no-failing-input-found"}))
+                    break
+    cov = {"evaluations": n_events, "timer_sequences": len(seqs), "distinct_nontrivial": len(combos),
+           "rule": "virtual-time runs of the real event loop; a case is one (ping_timeout, pong_timeout, client response pattern) combination; events are PING / ERROR / PONG observations compared with the Lean timer model to the 100 ms step",
+           "traces_validated_against_impl": len(seqs)}
+    samples = [{"sequence": seqs[0][0], "ops": runner.render_ops(seqs[0][2])[:12]}]
+    return {"coverage": cov, "samples": samples, "violations": violations}
+
+
+# --------------------------------------------------------------------------- directed scenarios
+
+def L(c, s):
+    return "line %d %s" % (c, esc(s))
+
+
+def reg(c, nick):
+    return ["connect %d 127.0.0.1" % c, L(c, "NICK " + nick), L(c, "USER u%s 0 * :r" % nick)]
+
+
+DIRECTED = {
+    # property -> list of (signature, cfg, ops, predicate(impl_seq) -> bool "defect present")
+    "C07": [
+        ("join-duplicate-quota", ["cfg name irc.test", "cfg max_joins 2"],
+         reg(1, "alice") + [L(1, "JOIN #a,#a,#b")],
+         lambda s: any(re.match(r"^:\S+ 405 \S+ #b ", l) for l in s.ops[-1].outs.get(1, []))),
+    ],
+    "C13": [
+        ("relay-cr", ["cfg name irc.test"],
+         reg(1, "alice") + reg(2, "bob") + [L(1, "JOIN #a"), L(2, "JOIN #a"), L(1, "TOPIC #a :x\ry")],
+         lambda s: any(re.match(r"^:\S+ TOPIC #a x\ry$", l) for l in s.ops[-1].outs.get(2, []))),
+    ],
+}
+
+
+def run_directed(pid, log):
+    from . import canon
+    res = []
+    for sig, cfg, ops, pred in DIRECTED.get(pid, []):
+        path = runner.WORK + "/directed-%s-%s.ops" % (pid, sig)
+        runner.write_seq_file(path, [(sig, cfg, ops)])
+        r = runner.sh([runner.HARNESS, "run", path], timeout=300)
+        seqs = canon.parse_transcript(r.stdout)
+        if seqs and pred(seqs[0]):
+            res.append((sig, {"what": "directed scenario shows the defect", "cfg": cfg, "ops": ops,
+                              "ops_readable": runner.render_ops(ops)}))
+    return res
+
+
+def run_extractor(script, sig, what):
+    r = runner.sh(["python3", runner.V + "/tools/" + script], timeout=120)
+    try:
+        info = json.loads(r.stdout.strip().split("\n")[-1])
+    except Exception:
+        info = {"differences": ["extractor failed: " + (r.stdout + r.stderr)[-400:]]}
+    viol = []
+    if info.get("differences"):
+        viol.append((sig, {"what": what, "broken": "source-structure extractor tools/%s vs /verif/tables" % script,
+                           "differences": info["differences"][:20], "suffix": "no-failing-input-found"}))
+    return info, viol
+
 
 def run(pid, tier, seed, log):
-    return {"coverage": {}, "samples": [], "violations": []}
+    out = {"coverage": {}, "samples": [], "violations": []}
+    if pid == "C17":
+        out = run_timer(tier, seed, log)
+    if pid == "C18":
+        info, viol = run_extractor("lock_map.py", "lock-structure-changed",
+                                   "the lock/await structure of a handler (or the gate/dispatch table) differs from the one the atomic sections of Irc/Conc.lean were written from")
+        out["coverage"]["lock_map"] = info
+        out["violations"] += viol
+    if pid == "C05":
+        info, viol = run_extractor("panic_sites.py", "new-panic-site",
+                                   "a handler contains an unwrap/expect/panic!/checked-subtraction/slice site that the model does not represent")
+        out["coverage"]["panic_sites"] = info
+        out["violations"] += viol
+    os.makedirs(runner.WORK, exist_ok=True)
+    out["violations"] += run_directed(pid, log)
+    return out
